@@ -33,7 +33,7 @@ Classes == {"r_zero", "s_zero", "high_s_rej", "high_s_acc", "x_ge_n", "R_inf", "
             "sample_first", "sample_after_zero", "sample_after_ge_n", "sample_exhausted", "sample_short", "sample_edge_accept",
             "drbg_multi", "drbg_vector",
             "priv_ok", "priv_zero", "priv_ge_n", "priv_badlen", "pub_ok_unc", "pub_ok_cmp", "pub_identity", "pub_invalid",
-            "pub_twist", "ecdh_ok", "ecdh_edge", "ecdh_repeat", "key_immutable", "after_scribble", "after_derive", "steered_u2", "near_miss_r", "sig_stable",
+            "pub_twist", "ecdh_ok", "ecdh_edge", "ecdh_repeat", "key_immutable", "after_scribble", "after_derive", "steered_u2", "near_miss_r", "sig_stable", "key_after_rejected_decode",
             "rec_v_ge4", "rec_hi_ok", "rec_hi_overflow", "rec_not_x", "rec_q_inf", "rec_rs_zero", "rec_ok", "rec_honest_other_v"}
 
 RPointOf(q, e, r, s) == LET w == SInv(s) IN PAdd(PMulG(SMul(e, w)), PMul(SMul(r, w), q))
@@ -172,6 +172,9 @@ Verdict(ev) ==
                /\ \E v \in 0..3 : SigIsSignOutput(d, e, p[2], p[3], v),
                EncClass(eff) \cup {"sv_same"} \cup (IF Len(dg) > W THEN {"sign_len_long"} ELSE {})
                \cup (IF ev.optkind = "nil" THEN {"nil_opts"} ELSE {}) \cup DigestClasses(ev.digest) >>
+    [] ev.ev = "key.AfterRejectedDecode" ->      \* a Point holding d*G was the receiver of rejected decodes; the key built from it is d*G's
+         LET a == PMulG(H(ev.d)) IN
+         << ev.rejected /\ ev.ok /\ ev.unc = EncUncompressedH(a) /\ ev.cmp = EncCompressedH(a), {"key_after_rejected_decode"} >>
     [] ev.ev = "sig.Stable" -> << ev.now = ev.then, {"sig_stable"} >>     \* a signature handed out earlier is untouched by later signing
     [] ev.ev = "der.Build" ->           \* the encoder Sign uses: canonical DER and it parses back
          LET r == H(ev.r)  s == H(ev.s)  want == BuildDerSig(r, s) IN
